@@ -174,7 +174,103 @@ func cookieRun(std *fix.Std, c cookieCase) (accepted bool, err error) {
 	return hs > 0 || ss > 0 || sentAuth, nil
 }
 
+// cookieOtherKey: an adversarial client (transport.VerifCookieProbe) obtains a cookie with its
+// own client KEM key A and presents it, from the same address, in an ack that names key B = A
+// with the bytes [off, off+n) changed and carries a MAC that is correct for B's transcript (the
+// client knows the shared secret). Returns whether the server accepted the ack.
+func cookieOtherKey(std *fix.Std, off, n int, v6 bool) (accepted bool, err error) {
+	w := fix.NewWorld()
+	defer w.Close()
+	srv, err := w.StartServer(std.ServerConfig(false), std.ServerAdr)
+	if err != nil {
+		return false, err
+	}
+	src := simnet.Addr("10.0.0.2", 4000)
+	if v6 {
+		src = &net.UDPAddr{IP: net.ParseIP("2001:db8::2"), Port: 4000}
+	}
+	probe, hello, err := transport.VerifNewCookieProbe()
+	if err != nil {
+		return false, err
+	}
+	before := w.Net.LogLen()
+	w.Net.Deliver(hello, src, srv.Addr)
+	if err := w.Net.WaitQuiescent(); err != nil {
+		return false, err
+	}
+	var sh []byte
+	for _, d := range w.Net.LogSince(before) {
+		if d.Src.Port == srv.Addr.Port && d.Data[0] == 2 {
+			sh = append([]byte{}, d.Data...)
+		}
+	}
+	if sh == nil {
+		return false, fmt.Errorf("no server hello for the probe's client hello")
+	}
+	for w.Net.Pop() != nil {
+	}
+	var mutate func([]byte)
+	if n > 0 {
+		mutate = func(raw []byte) {
+			if off < 0 {
+				off += len(raw)
+			}
+			for i := off; i < off+n && i < len(raw); i++ {
+				raw[i] ^= 0xA5
+			}
+		}
+	}
+	ack, err := probe.Ack(sh, mutate)
+	if err != nil {
+		return false, fmt.Errorf("building the ack: %v", err)
+	}
+	before = w.Net.LogLen()
+	w.Net.Deliver(ack, src, srv.Addr)
+	if err := w.Net.WaitQuiescent(); err != nil {
+		return false, err
+	}
+	hs, ss, _ := srv.S.VerifCounts()
+	sentAuth := false
+	for _, d := range w.Net.LogSince(before) {
+		if d.Src.Port == srv.Addr.Port && d.Src.IP.Equal(srv.Addr.IP) && d.Data[0] == 4 {
+			sentAuth = true
+		}
+	}
+	return hs > 0 || ss > 0 || sentAuth, nil
+}
+
 func cookies(r *vk.Run, std *fix.Std) {
+	// cookie presented with another client key by a client that can compute the MAC
+	type ok struct{ off, n int }
+	oks := []ok{{0, 0}, {0, 1}, {31, 1}, {32, 1}, {33, 1}, {64, 1}, {transport.KemKeyLen / 2, 1}, {-33, 1}, {-32, 1}, {-8, 8}, {-1, 1}}
+	if r.Thorough() {
+		oks = oks[:1]
+		for off := 0; off < transport.KemKeyLen; off++ {
+			oks = append(oks, ok{off, 1})
+		}
+	}
+	r.Parallel(len(oks)*2, func(i int) {
+		c, v6 := oks[i/2], i%2 == 1
+		r.Eval()
+		acc, err := cookieOtherKey(std, c.off, c.n, v6)
+		id := fmt.Sprintf("cookie:other-client-key:off=%d,n=%d,v6=%v", c.off, c.n, v6)
+		if err != nil {
+			// a changed byte can make the key bytes unparseable as a KEM key: not a case
+			if c.n > 0 && strings.Contains(err.Error(), "building the ack") {
+				r.AddInt("cookie_other_key_variants_unparseable", 1)
+				return
+			}
+			r.EngineError("%s: %v", id, err)
+			return
+		}
+		if c.n == 0 && !acc {
+			r.Violation("cookie:other-client-key:liveness", "the probe's honest ack (its own key, the server's fresh cookie, same address) was rejected", id)
+		}
+		if c.n > 0 && acc {
+			r.Violation("cookie:other-client-key", fmt.Sprintf("client ack accepted although it names a client KEM key other than the one the cookie was minted for (bytes [%d,%d) of the key changed, MAC recomputed by the client, same address; negative offsets count from the end)", c.off, c.off+c.n), id)
+		}
+		r.Distinct(id)
+	})
 	var cases []cookieCase
 	for m := 0; m < 16; m++ {
 		for _, v6 := range []bool{false, true} {
@@ -463,7 +559,7 @@ func tb(b []byte) string {
 func main() {
 	r := vk.New("C19", "fault_enumeration")
 	std := fix.NewStd()
-	r.SetRule("discoverable: k in {1,10,1000} genuine client hellos from {1,10} addresses -> handshake/session/pending tables empty, goroutine count unchanged, one reply each; client ack accepted iff cookie minted by this server under its current key for the same IP, port and client KEM key: all 2^4 changed/unchanged combinations for an IPv4 and for an IPv6 client (key rotation through the rotation step itself), every single cookie byte flipped (thorough: every bit, and two bits per byte for the IPv6 client), ack presented to another server instance. Hidden (IsHidden server): every captured discoverable-mode message, raw junk (11 lengths x 11 type bytes), request under another KEM key, hidden request with two bit flips at start/middle/end of each of its 7 fields, truncation before and inside each field, trailing bytes, and (through a check-time clock seam in the client's request writer) timestamps now-3 (fresh) / now-8 / now-60 / -1 day / +30 s / +1 day / 0 / 2^31 / 2^63-1 / 2^63 / 2^63+now / 2^63+now-3 / 2^64-3 / 2^64-1; thorough also holds a request for 7 real seconds. Oracle: zero datagrams from the server for everything but a fresh well-formed request, exactly one for that. distinct_nontrivial = distinct stimulus classes.")
+	r.SetRule("discoverable: k in {1,10,1000} genuine client hellos from {1,10} addresses -> handshake/session/pending tables empty, goroutine count unchanged, one reply each; client ack accepted iff cookie minted by this server under its current key for the same IP, port and client KEM key: all 2^4 changed/unchanged combinations for an IPv4 and for an IPv6 client (key rotation through the rotation step itself), every single cookie byte flipped (thorough: every bit, and two bits per byte for the IPv6 client), ack presented to another server instance; and an adversarial client that holds a cookie for its own KEM key A presents it from the same address in an ack naming key B = A with one byte changed at offsets 0, 31, 32, 33, 64, middle, -33, -32, -1 or the last 8 bytes changed (thorough: every byte offset of the key), with the MAC recomputed for B's transcript, so that only the cookie's binding to the key can refuse it. Hidden (IsHidden server): every captured discoverable-mode message, raw junk (11 lengths x 11 type bytes), request under another KEM key, hidden request with two bit flips at start/middle/end of each of its 7 fields, truncation before and inside each field, trailing bytes, and (through a check-time clock seam in the client's request writer) timestamps now-3 (fresh) / now-8 / now-60 / -1 day / +30 s / +1 day / 0 / 2^31 / 2^63-1 / 2^63 / 2^63+now / 2^63+now-3 / 2^64-3 / 2^64-1; thorough also holds a request for 7 real seconds. Oracle: zero datagrams from the server for everything but a fresh well-formed request, exactly one for that. distinct_nontrivial = distinct stimulus classes.")
 	hellos(r, std)
 	cookies(r, std)
 	hidden(r, std)
